@@ -29,10 +29,19 @@ type EquCase struct {
 	Stmts []string `json:"stmts"` // statements using the names
 	Sites []string `json:"sites"` // site class per statement (for statistics)
 	Late  bool     `json:"late"`  // definitions interleaved just before first use instead of all at the top
+	// Perm: the order in which the definitions are written at the top (nil = dependency order); any other order
+	// makes some definition refer to a name that is defined further down
+	Perm []int `json:"perm,omitempty"`
 }
 
 func (c *EquCase) defsText() string {
 	var sb strings.Builder
+	if len(c.Perm) == len(c.Defs) && !c.Late {
+		for _, i := range c.Perm {
+			fmt.Fprintf(&sb, "%s\tEQU\t%s\n", c.Defs[i].Name, c.Defs[i].Body)
+		}
+		return sb.String()
+	}
 	for _, d := range c.Defs {
 		fmt.Fprintf(&sb, "%s\tEQU\t%s\n", d.Name, d.Body)
 	}
@@ -136,6 +145,9 @@ func checkC11(c EquCase) Verdict {
 	for _, s := range c.Sites {
 		st.Classes["site:"+s]++
 	}
+	if c.Perm != nil && !c.Late {
+		st.Classes["defs-permuted"]++
+	}
 	v.Sample = map[string]any{"with_names": sa, "inlined": si}
 	return v
 }
@@ -175,7 +187,7 @@ var equSites = []equSite{
 
 var propC11 = &Prop[EquCase]{
 	ID:   "C11",
-	Rule: "1..5 EQU definitions forming chains up to depth 4 (literal bodies around the imm8/imm16/disp8 boundaries, bodies over earlier names with + - * / %, names from the adversarial identifier family) used in 1..6 statements at every kind of site (8/16/32-bit immediates, shift counts, INT, ports, memory-immediate, 16/32-bit displacements, absolute address, DB/DW/DD lists, RESB, PUSH), as a bare name or inside a larger expression; definitions at the top or just before first use; oracle: byte-identical output of the program with names and the program with every name replaced textually by its parenthesised definition, same acceptance, and the definitions alone emit nothing; non-trivial = a chain of depth >= 2 or a value on an encoding boundary; distinct by source text",
+	Rule: "1..5 EQU definitions forming chains up to depth 4 (literal bodies around the imm8/imm16/disp8 boundaries, bodies over earlier names with + - * / %, names from the adversarial identifier family) used in 1..6 statements at every kind of site (8/16/32-bit immediates, shift counts, INT, ports, memory-immediate, 16/32-bit displacements, absolute address, DB/DW/DD lists, RESB, PUSH), as a bare name or inside a larger expression; definitions at the top (in dependency order or permuted, so that bodies name constants defined further down) or just before first use; oracle: byte-identical output of the program with names and the program with every name replaced textually by its parenthesised definition, same acceptance, and the definitions alone emit nothing; non-trivial = a chain of depth >= 2 or a value on an encoding boundary; distinct by source text",
 	Gen: func(t *rapid.T) EquCase {
 		c := EquCase{Mode: rapid.SampledFrom([]int{0, 16, 32}).Draw(t, "mode"), Late: rapid.Bool().Draw(t, "late")}
 		nd := rapid.IntRange(1, 5).Draw(t, "ndefs")
@@ -223,6 +235,13 @@ var propC11 = &Prop[EquCase]{
 				d.Dep = p.Dep + 1
 			}
 			c.Defs = append(c.Defs, d)
+		}
+		if !c.Late && len(c.Defs) >= 2 && rapid.IntRange(0, 2).Draw(t, "permute") == 0 {
+			idx := make([]int, len(c.Defs))
+			for i := range idx {
+				idx[i] = i
+			}
+			c.Perm = rapid.Permutation(idx).Draw(t, "perm")
 		}
 		// a table naming many constants in one statement
 		if rapid.IntRange(0, 3).Draw(t, "table") == 0 {
